@@ -32,7 +32,7 @@ m = {
     'hooks': {
         'guard': 'verif',
         'enable': 'go test -tags verif -overlay build/<id>/overlay.json (harness files are injected from /verif/harness; nothing is added to /repo)',
-        'baseline_off_cmd': 'for m in kbuild kernel; do (cd /repo/$m && GOFLAGS=-mod=mod go test -vet=off -count=1 ./...); done',
+        'baseline_off_cmd': 'for m in kbuild kernel; do (cd /repo/$m && GOFLAGS=-mod=mod GOPROXY=off go test -json -vet=off -count=1 -timeout 25m ./...); done',
         'source_commits': [],
         'add_only': True,
     },
